@@ -872,7 +872,7 @@ func merge{{.PointerMethod}}(dst, src pointer, _ *coderFieldInfo, _ mergeOptions
 
 func merge{{.PointerMethod}}NoZero(dst, src pointer, _ *coderFieldInfo, _ mergeOptions) {
 	v := *src.{{.PointerMethod}}()
-	if v != {{.Zero}} {
+	if v != {{.Zero}}{{if or (eq .PointerMethod "Float32") (eq .PointerMethod "Float64")}} || math.Signbit(float64(v)){{end}} {
 		*dst.{{.PointerMethod}}() = v
 	}
 }
